@@ -187,6 +187,16 @@ def ff_rule(repo, res, rule="FF"):
         for s in P.ctor_sites(f.body, "Error::" + variant):
             if s["k"] == "Call":
                 out.append([A.resolve(a, envs.get(id(s))) for a in s["args"]])
+        if not out:
+            # extracted into a helper of the same module
+            for g in repo.fns_in(f.module):
+                ge = None
+                for s in P.ctor_sites(g.body, "Error::" + variant):
+                    if s["k"] == "Call":
+                        ge = ge or A.collect_envs(g)
+                        out.append([A.resolve(a, ge.get(id(s))) for a in s["args"]])
+                if out:
+                    return g, out
         return f, out
 
     f, sites = arg_provs("parse::Shell::from_str", "UnknownShell")
